@@ -6,6 +6,5 @@ CONSTANTS
   Bug_HoldRequestAcrossMerge = FALSE
   Bug_NotifyOne = FALSE
   Bug_NoRescheduleAtEnd = FALSE
-  Bug_SlotNotCleared = FALSE
 INVARIANTS Emit
 CHECK_DEADLOCK FALSE
